@@ -280,6 +280,16 @@ impl CfgNode {
     }
 }
 
+#[cfg(feature = "verif-hooks")]
+impl CfgNode {
+    /// Break the reference cycles this node takes part in (verification harness only).
+    pub fn verif_dispose(&self) {
+        self.nexts.borrow_mut().clear();
+        self.prevs.borrow_mut().clear();
+        self.function.borrow_mut().clear();
+    }
+}
+
 impl Hash for CfgNode {
     fn hash<H: std::hash::Hasher>(&self, state: &mut H) {
         self.node().hash(state);
